@@ -193,7 +193,7 @@ impl Session {
         }
     }
 
-    /// didOpen / didChange: each spawns exactly one diagnostics task.
+    /// didOpen / didChange
     pub fn did_open(&mut self, name: &str, text: &str) -> Result<(), SessionError> {
         let uri = self.uri(name);
         self.send(json!({ "jsonrpc": "2.0", "method": "textDocument/didOpen", "params": {
@@ -210,22 +210,29 @@ impl Session {
         Ok(())
     }
 
-    /// Waits until every notification sent so far has been handled, every task it
-    /// spawned has ended and every publication has been read.
+    /// Waits until every message sent so far has been dispatched by the main loop, every task
+    /// spawned so far has ended and every publication has been read.
+    ///
+    /// The barrier is a request of a method the server does not know: the main loop dispatches
+    /// messages in order and answers it itself (method not found, no task), so its response proves
+    /// that the handlers of all earlier notifications have run - whether or not they chose to
+    /// start a diagnostics task.
     pub fn quiesce(&mut self) -> Result<(), SessionError> {
+        let r = self.request_inner("tgv/barrier", json!({}))?;
+        if r.get("error").is_none() {
+            return Err(SessionError::Stuck(format!("the barrier request was answered with a result: {r}")));
+        }
         let deadline = Instant::now() + IO_TIMEOUT;
         loop {
             let spawned = TASKS_SPAWNED.load(Ordering::SeqCst) - self.base_spawned;
             let ended = TASKS_ENDED.load(Ordering::SeqCst) - self.base_ended;
             let published = PUBLISHED.load(Ordering::SeqCst) - self.base_published;
-            // requests also spawn tasks; `requests_done` of them have ended for sure
-            let expected = self.notifications_sent + (self.next_id as u64 - 2);
-            if spawned >= expected && ended == spawned && self.publications_read >= published {
+            if ended == spawned && self.publications_read >= published {
                 return Ok(());
             }
             if Instant::now() >= deadline {
                 return Err(SessionError::Stuck(format!(
-                    "not quiescent after {IO_TIMEOUT:?}: tasks spawned {spawned} (expected {expected}), ended {ended}, published {published}, read {}",
+                    "not quiescent after {IO_TIMEOUT:?}: tasks spawned {spawned}, ended {ended}, published {published}, read {}",
                     self.publications_read
                 )));
             }
